@@ -2,6 +2,7 @@ package main
 
 import (
 	"fmt"
+	"net"
 	"net/http"
 	"net/http/httptest"
 	"sync/atomic"
@@ -32,7 +33,8 @@ type upBackend struct {
 func runUpstream(seed uint64, n int, tier string, out string, replay string) {
 	rnd := hx.NewRand(seed)
 	sum := hx.NewSummary("upstream", seed)
-	sum.Rule = "one case = 1-4 upstream servers (random primary/backup mix, one of the four policies) built with pike's NewUpstreamServer against local HTTP listeners; ops: set a server healthy/sick/ignored through the library, pick a target through pike's target picker (batches of 3-12), finish a least-conn request, run one real DoHealthCheck round in which each listener fails a chosen number (0-5) of the 5 pings; a case is re-run if the library's background checker interfered; non-trivial = some pick happened while a primary was down or a backup was in use; distinct by op sequence; plus 6 end-to-end scenarios (one per policy and two more): primary + backup origins behind the upstream registry, requests through ONE long-lived proxy middleware, health driven through the origins' /ping answers and explicit DoHealthCheck rounds, with configuration reloads (upstream.Reset, same configuration) between the health changes: primary -> backup -> 5xx without contacting anyone -> backup -> primary"
+	sum.Rule = "one case = 1-4 upstream servers (random primary/backup mix, one of the four policies) built with pike's NewUpstreamServer against local HTTP listeners; ops: set a server healthy/sick/ignored through the library, pick a target through pike's target picker (batches of 3-12), finish a least-conn request, run one real DoHealthCheck round in which each listener fails a chosen number (0-5) of the 5 pings; a case is re-run if the library's background checker interfered; non-trivial = some pick happened while a primary was down or a backup was in use; distinct by op sequence; plus 6 end-to-end scenarios (one per policy and two more): primary + backup origins behind the upstream registry, requests through ONE long-lived proxy middleware, health driven through the origins' /ping answers and explicit DoHealthCheck rounds, with configuration reloads (upstream.Reset, same configuration) between the health changes: primary -> backup -> 5xx without contacting anyone -> backup -> primary; plus a one-server and a two-server upstream created while their servers are down, the servers coming up 300 ms later with nobody triggering a check: picks must succeed within 14 s"
+	finishRecovery := recoversByItself(sum)
 	header := "From Coq Require Import List NArith ZArith.\nImport ListNotations.\nFrom Pike Require Import Model.Upstream Corr.C19Corr.\n"
 	w := hx.NewCaseWriter(out, "upstream", header, "list u_case", "check_cases", 25, sum)
 	distinct := hx.NewDistinct()
@@ -224,7 +226,83 @@ func runUpstream(seed uint64, n int, tier string, out string, replay string) {
 	}
 	w.Flush()
 	sum.DistinctNontrivial = distinct.Len()
+	finishRecovery()
 	sum.Write(out)
+}
+
+// recoversByItself: upstreams with one and with two servers, created while every server is down; the servers
+// come up 300 ms later and NOBODY triggers a health check: the library's periodic checker must notice, and
+// picks must succeed again within 14 s ("traffic resumes by itself once a server recovers").  Returns the
+// function that evaluates the outcome at the end of the family (the wait overlaps the other cases).
+func recoversByItself(sum *hx.Summary) func() {
+	type sc struct {
+		name  string
+		addrs []string
+	}
+	scs := []sc{{"one-server", []string{"127.0.0.1:39181"}}, {"two-servers", []string{"127.0.0.1:39182", "127.0.0.1:39183"}}}
+	type live struct {
+		sc     sc
+		srv    interface{ Destroy() }
+		picker func() bool
+		lns    []net.Listener
+	}
+	var lives []*live
+	for _, c := range scs {
+		var cfgs []pup.UpstreamServerConfig
+		for _, a := range c.addrs {
+			cfgs = append(cfgs, pup.UpstreamServerConfig{Addr: "http://" + a})
+		}
+		srv := pup.NewUpstreamServer(pup.UpstreamServerOption{Name: "rec-" + c.name, HealthCheck: "/ping", Policy: "roundRobin", Servers: cfgs})
+		pk := pup.VerifNewTargetPicker(srv.HTTPUpstream)
+		l := &live{sc: c, srv: srv, picker: func() bool {
+			u, done, err := pk(&elton.Context{})
+			if done != nil {
+				done(nil)
+			}
+			return err == nil && u != nil
+		}}
+		if l.picker() {
+			sum.Count("recovery-scenario-skipped(port in use)")
+			srv.Destroy()
+			continue
+		}
+		lives = append(lives, l)
+	}
+	time.Sleep(300 * time.Millisecond)
+	for _, l := range lives {
+		for _, a := range l.sc.addrs {
+			ln, err := net.Listen("tcp", a)
+			if err != nil {
+				continue
+			}
+			l.lns = append(l.lns, ln)
+			go func() {
+				_ = http.Serve(ln, http.HandlerFunc(func(rw http.ResponseWriter, r *http.Request) { _, _ = rw.Write([]byte("pong")) }))
+			}()
+		}
+	}
+	start := time.Now()
+	return func() {
+		for _, l := range lives {
+			ok := false
+			for time.Since(start) < 14*time.Second {
+				if l.picker() {
+					ok = true
+					break
+				}
+				time.Sleep(250 * time.Millisecond)
+			}
+			sum.Count("recovery-scenario:" + l.sc.name)
+			if !ok && len(l.lns) == len(l.sc.addrs) {
+				sum.ImplViolations = append(sum.ImplViolations, map[string]interface{}{"property": "C19", "kind": "traffic-does-not-resume-after-recovery", "upstream": l.sc.name, "servers": l.sc.addrs,
+					"what": "the upstream was created while its servers were down; they came up 300 ms later; 14 s later (health checks run every 5 s) no request can be forwarded yet"})
+			}
+			l.srv.Destroy()
+			for _, ln := range l.lns {
+				_ = ln.Close()
+			}
+		}
+	}
 }
 
 // upstreamReloadE2E: a primary and a backup origin behind the upstream registry, requests through ONE
